@@ -4,12 +4,15 @@ C06 — property theorems: Rychlik and Johannesson cycles follow their per-peak 
 Proved here: one whole cycle per interior local maximum of the history with that maximum as top;
 the bottoms are the per-side minima on the reversal sequence, the Rychlik bottom being the higher
 of the two sides (= the smaller of the two Johannesson ranges) when the top is unique.
+The raw-history form of the Johannesson bottom (lowest value since the history was last at or
+above M, on the de-plateaued samples) is `C06_johannesson_bottoms` in Lemmas/JoBottom.lean.
 NOT proved (kept as statements, decided by the exhaustive small-scope test in the check):
-`C06.RainflowEqStatement` (Rychlik's theorem with ties) and the raw-history form of the bottoms.
+`C06.RainflowEqStatement` (Rychlik's theorem with ties) and the raw-history form of the Rychlik bottom.
 -/
 import FFVerif.Lemmas.Census2
 import FFVerif.Lemmas.PeakSpec
 import FFVerif.Props.C06
+import FFVerif.Lemmas.JoBottom
 namespace FF
 open C05 C06
 
